@@ -4,7 +4,7 @@ META = {
  'functions': ['Template::Render / TemplateCore::Parse + Render (Template.hpp) un-stubbed, with the real Finder, Tags, QExpression, Value<char>, HArray, Array, String, StringUtils::EscapeHTMLSpecialChars'],
  'bounds': 'a listed family of CONCRETE templates x CONCRETE value-tree shapes (object of strings, array under a key, nested object + number, root array, super-variable phrase, object of arrays, array of arrays, numbers under a key); the two leaf strings of the tree '
            '(2 units each, every code unit incl. < > & " \') are symbolic: the solver decides over all leaf contents. Rendered text == documented expansion; second render through the same tag cache identical; '
-           'value, template text and pre-existing stream content untouched; every access inside the exact-size template buffer. Thorough adds every truncation point of every family member (safety + purity only).',
+           'value, template text and pre-existing stream content untouched; every access inside the exact-size template buffer. Thorough adds every truncation point of every family member except the three added last (loop_math_paren, loop_obj_then_array, loop_sorted_obj_then_array: their truncations were not run and are not registered) (safety + purity only).',
  'outside': 'templates and tree shapes outside the family; symbolic template text (one symbolic unit: no verdict in 300 s); symbolic tree shape / key text; leaf strings longer than 2 units; real-number leaves '
             '(number formatting: C10); char16_t / char32_t; sort / group attributes; SIMD builds; concurrent renders (see C17 note)',
  'assumptions': ['FixedStream stand-in for the output stream (the real StringStream made the formula exceed 60 GB)', 'value tree and tag cache are never destroyed in the harness (release-exactly-once is C16)'],
